@@ -546,7 +546,7 @@ func TestC10(t *testing.T) {
 		}, Check: c10Check})
 
 	// (1) accepted => consistent, on catalogue models (valid by construction: they must load)
-	RunRapid(c, t, Sub[c10Case]{Kind: "valid-models", Quick: 2500, Thorough: 80_000,
+	RunRapid(c, t, Sub[c10Case]{Kind: "valid-models", Quick: 5000, Thorough: 80_000,
 		Gen: func(t *rapid.T) c10Case {
 			doc := genModel(t, modelOpts{MaxServices: 4, NoFiles: true, Rich: rapid.Bool().Draw(t, "rich")})
 			return c10Case{Rule: "valid-model", Placement: "main", MustLoad: true,
@@ -555,7 +555,7 @@ func TestC10(t *testing.T) {
 
 	// (1b) accepted => consistent, on models with consistency-relevant random edits (either outcome is fine,
 	// but whatever loads must satisfy the invariant checker)
-	RunRapid(c, t, Sub[c10Case]{Kind: "edited-models", Quick: 2500, Thorough: 80_000,
+	RunRapid(c, t, Sub[c10Case]{Kind: "edited-models", Quick: 5000, Thorough: 80_000,
 		Gen: func(t *rapid.T) c10Case {
 			doc := genModel(t, modelOpts{MaxServices: 3, NoFiles: true})
 			svcs := doc["services"].(map[string]any)
